@@ -59,6 +59,12 @@ abbrev XM := EStateM XErr ES
 
 def xerr (msg : String) (k : XKind := .exec) : XM α := throw { kind := k, msg := msg }
 
+/-- a pure step result as an execution outcome -/
+def liftStep (r : Except String α) : XM α :=
+  match r with
+  | .ok a => pure a
+  | .error m => xerr m
+
 def cur : XM Frame := do
   match (← get).frames with
   | f :: _ => pure f
@@ -327,6 +333,202 @@ def spacelessFix : Nat → Bytes → Bytes
 
 def spaceless (s : Bytes) : Bytes := spacelessFix (s.length + 1) s
 
+/-! ### context functions and methods: the call protocol of `variableResolver.resolve`
+
+The harness's catalogue of Go functions (`harness/values.go: goFuncs`) and the methods of its
+struct type `VS1` are mirrored here with their signatures and (total) semantics. -/
+
+/-- a Go function type as the resolver inspects it -/
+structure GoSig where
+  takesCtx : Bool := false
+  /-- parameter type strings; for a variadic function the last entry is the element type -/
+  params   : List Bytes := []
+  variadic : Bool := false
+  outs     : Nat := 1
+  deriving Inhabited
+
+def valuePtrT : Bytes := b!"*pongo2.Value"
+def ifaceT : Bytes := b!"interface {}"
+
+/-- `reflect.TypeOf(v.Interface()).String()` for the modelled values; `none` for nil -/
+def goTypeOf : Val → Option Bytes
+  | .nil => none
+  | .bool _ => some b!"bool"
+  | .int _ => some b!"int"
+  | .uint _ => some b!"uint"
+  | .float _ => some b!"float64"
+  | .str _ => some b!"string"
+  | .list ty _ | .arr ty _ | .smap ty _ | .imap ty _ => some ty
+  | .struct n _ _ => some n
+  | .ptr (.struct n _ _) => some (b!"*" ++ n)
+  | .ptr (.int _) => some b!"*int"
+  | .ptr (.str _) => some b!"*string"
+  | .ptr _ => some b!"*interface {}"
+  | .nilptr => some b!"*main.VS1"
+  | .boxed .. => some valuePtrT
+  | .stringer (.str _) _ => some b!"main.SString"
+  | .stringer _ _ => some b!"main.SInt"
+  | .func _ => some b!"func"
+  | .closure .. => some b!"func(...*pongo2.Value) (*pongo2.Value, error)"
+  | .blockinfo .. => some b!"pongo2.tagBlockInformation"
+  | .cycleval .. => some b!"*pongo2.tagCycleValue"
+
+def goFuncSig : Nat → Option GoSig
+  | 0 => some {}
+  | 1 => some { params := [b!"int"] }
+  | 2 => some { params := [b!"string", b!"int"] }
+  | 3 => some { params := [b!"int"], variadic := true }
+  | 4 => some { params := [b!"string", b!"string"], variadic := true }
+  | 5 => some { params := [valuePtrT] }
+  | 6 => some { params := [valuePtrT, valuePtrT], variadic := true }
+  | 7 => some { outs := 2 }
+  | 8 => some { params := [b!"int"], outs := 2 }
+  | 9 => some { takesCtx := true }
+  | 10 => some { takesCtx := true, params := [b!"string"] }
+  | 11 => some { params := [ifaceT] }
+  | 12 => some {}
+  | 13 => some { outs := 3 }
+  | 14 => some { outs := 0 }
+  | 15 => some {}
+  | 16 => some { outs := 2 }
+  | 17 => some { params := [b!"float64"] }
+  | 18 => some { params := [b!"bool"] }
+  | 19 => some { params := [b!"[]int"] }
+  | 20 => some { params := [b!"map[string]interface {}"] }
+  | 21 => some { params := [b!"main.VS1"] }
+  | 22 => some { params := [ifaceT, ifaceT] }
+  | _ => none
+
+/-- what a call yields: the reflect value and, for a `*Value` result, its safe flag
+    (`none`: the resolver's running `isSafe` is left as it was) -/
+abbrev GoOut := Except String (Val × Option Bool)
+
+def intArgs (args : List V) : List Int64 := args.map fun a => match a.v with | .int i => i | _ => 0
+
+/-- the catalogue's behaviour on type-checked arguments -/
+def goFuncRun (id : Nat) (autoescape : Bool) (args : List V) : GoOut :=
+  match id, args with
+  | 0, _ => .ok (.str b!"f0", none)
+  | 1, [a] => .ok (.int (a.v.toInt * 2), none)
+  | 2, [s, i] => .ok (.str (s.v.toS ++ fmtInt i.v.toInt), none)
+  | 3, xs => .ok (.int ((intArgs xs).foldl (· + ·) 0), none)
+  | 4, p :: xs => .ok (.str (p.v.toS ++ Bytes.join b!"," (xs.map (·.v.toS))), none)
+  | 5, [v] => .ok (.str (v.v.toS ++ b!"!"), some false)
+  | 6, _ :: more => .ok (.int (Int64.ofNat more.length), some false)
+  | 7, _ => .error "boom"
+  | 8, [i] => if i.v.toInt < 0 then .error "negative" else .ok (.int (i.v.toInt + 1), none)
+  | 9, _ => .ok (.str (if autoescape then b!"on" else b!"off"), none)
+  | 10, [s] => .ok (.str (s.v.toS ++ b!"@"), none)
+  | 11, [a] => .ok (a.v, none)
+  | 12, _ => .ok (.str b!"<b>", some true)
+  | 15, _ => .ok (.nil, none)
+  | 16, _ => .error "the second return value is not an error"
+  | 17, [f] => .ok (.float (f.v.toFloat + 0.5), none)
+  | 18, [c] => .ok (.bool (!c.v.isTrue), none)
+  | 19, [l] => .ok (.int (Int64.ofNat l.v.len), none)
+  | 20, [m] => .ok (.int (Int64.ofNat m.v.len), none)
+  | 21, [st] => .ok ((match st.v with | .struct _ fs _ => (fs.lookup b!"A").getD .nil | _ => .nil), none)
+  | 22, [_, c] => .ok (c.v, none)
+  | _, _ => .error "unreachable: arity was checked"
+
+/-- methods of the harness's struct type: (name, declared on the pointer type, signature) -/
+def vs1Methods : List (Bytes × Bool × GoSig) :=
+  [(b!"GetB", false, {}), (b!"Echo", false, { params := [b!"string"] }), (b!"PtrName", true, {}),
+   (b!"Fail", false, { outs := 2 }), (b!"Sum", false, { params := [b!"int"], variadic := true })]
+
+def goMethodRun (name : Bytes) (recv : Val) (args : List V) : GoOut :=
+  if name == b!"GetB" then
+    .ok ((match recv with | .struct _ fs _ => (fs.lookup b!"B").getD .nil | _ => .nil), none)
+  else if name == b!"Echo" then .ok (.str ((args.headD default).v.toS ++ b!"!"), none)
+  else if name == b!"PtrName" then .ok (.str b!"ptr", none)
+  else if name == b!"Fail" then .error "method failed"
+  else if name == b!"Sum" then .ok (.int ((intArgs args).foldl (· + ·) 0), none)
+  else .error "no such method"
+
+/-- the argument-count rule, with the implicit context argument and the variadic exception -/
+def goCountOK (sig : GoSig) (nArgs : Nat) : Bool :=
+  let off := if sig.takesCtx then 1 else 0
+  let nIn := sig.params.length + off
+  let n := nArgs + off
+  n == nIn || (n ≥ nIn - 1 && sig.variadic)
+
+/-- the parameter type argument `j` is checked against -/
+def goParamFor (sig : GoSig) (j : Nat) : Bytes :=
+  let off := if sig.takesCtx then 1 else 0
+  if sig.variadic && j + off ≥ sig.params.length + off - 1 then sig.params.getLast?.getD [] else sig.params.getD j []
+
+/-- an argument fits: `*Value` and interface parameters take anything, others the exact Go type -/
+def goArgOK (sig : GoSig) (j : Nat) (a : V) : Bool :=
+  goParamFor sig j == valuePtrT || goTypeOf a.v == some (goParamFor sig j) || goParamFor sig j == ifaceT
+
+/-- the argument checks of `resolve` before `reflect.Value.Call`: count, number of results,
+    parameter types -/
+def goCheckCall (sig : GoSig) (args : List V) : Except String Unit :=
+  if !goCountOK sig args.length then .error "function input argument count"
+  else if !(sig.outs == 1 || sig.outs == 2) then .error "must have exactly 1 or 2 output arguments"
+  else if args.zipIdx.all (fun (a, j) => goArgOK sig j a) then .ok ()
+  else .error "function input argument must be of the parameter's type"
+
+/-- calling a catalogue function -/
+def callGo (id : Nat) (autoescape : Bool) (args : List V) : GoOut :=
+  match goFuncSig id with
+  | none => .error "unknown function"
+  | some sig =>
+    match goCheckCall sig args with
+    | .error m => .error m
+    | .ok () => goFuncRun id autoescape args
+
+/-- a method of `VS1`/`*VS1` found by `MethodByName` on `v` (before any dereference) -/
+def goMethodOf (v : Val) (name : Bytes) : Option (Bool × GoSig) :=
+  match v with
+  | .struct tn _ _ =>
+    if tn == b!"main.VS1" then (vs1Methods.lookup name).bind fun (ptrOnly, sig) => if ptrOnly then none else some (false, sig)
+    else none
+  | .ptr (.struct tn _ _) => if tn == b!"main.VS1" then (vs1Methods.lookup name).map fun (_, sig) => (false, sig) else none
+  | .nilptr => (vs1Methods.lookup name).map fun (ptrOnly, sig) => (!ptrOnly, sig)   -- value method through nil: yields nil
+  | _ => none
+
+/-! ### one step of a dotted / subscripted name (`variableResolver.resolve`, after the pointer was followed) -/
+
+/-- byte `i` of a string / element `i` of a sequence; out of range: the empty value -/
+def seqAt (cv : Val) (i : Int64) : Option (Option Val) :=
+  match cv with
+  | .str s | .stringer (.str s) _ =>
+    some (if i ≥ 0 && s.length > i.toNatClampNeg then some (.uint (UInt64.ofNat (s.getD i.toNatClampNeg 0).toNat)) else none)
+  | .list _ xs | .arr _ xs => some (if i ≥ 0 && xs.length > i.toNatClampNeg then some (xs.getD i.toNatClampNeg .nil) else none)
+  | _ => none
+
+/-- `a.3` -/
+def stepIndex (cv : Val) (i : Int64) : Except String (Option Val) :=
+  match seqAt cv i with
+  | some r => .ok r
+  | none => .error "can't access an index on this type"
+
+/-- `a.name`: exported field or string key; missing, unexported, or a map with other keys: the empty value -/
+def stepName (cv : Val) (s : Bytes) : Except String (Option Val) :=
+  match cv with
+  | .struct _ fields _ => .ok (fields.lookup s)
+  | .blockinfo .. => .ok none
+  | .smap _ kvs => .ok (kvs.lookup s)
+  | .imap .. => .ok none
+  | .stringer (.struct _ fields _) _ => .ok (fields.lookup s)
+  | _ => .error "can't access a field by name on this type"
+
+def subscriptable (cv : Val) : Bool :=
+  match cv with
+  | .str _ | .list .. | .arr .. | .struct .. | .smap .. | .imap .. => true
+  | .stringer (.str _) _ => true      -- reflect sees the string kind of a named string type
+  | _ => false
+
+/-- `a[k]` with the evaluated key -/
+def stepSub (cv : Val) (k : Val) : Except String (Option Val) :=
+  match cv with
+  | .str _ | .list .. | .arr .. | .stringer (.str _) _ => (match seqAt cv k.toInt with | some r => .ok r | none => .ok none)
+  | .struct _ fields _ => .ok (fields.lookup k.toS)
+  | .smap _ kvs => .ok (match k with | .str key => kvs.lookup key | _ => none)
+  | .imap _ kvs => .ok (match k with | .int key => kvs.lookup key | _ => none)
+  | _ => .error "can't access an index on this type"
+
 /-! ### the escape-on-output decision (`nodeVariable.Execute`, `writeCycleValue`) -/
 
 /-- the bytes `{{ e }}` writes for the value `v` of `e`: escaped unless autoescape is off,
@@ -470,27 +672,39 @@ def resolve : Nat → List Part → XM V
         | some v => v
         | none => (fr.pub.lookup name).getD .nil
       let call0 := match first with | .ident _ c => c | .idx _ c => c | .sub _ c => c
-      let r ← afterPart fuel v0 false call0
+      let r ← afterPart fuel v0 false call0 true
       match r with
       | none => pure (mkV .nil)
       | some (v, safe) => resolveRest fuel rest v safe
 
 /-- the checks that follow every part: validity, `*Value` unpacking, calls.
     `none` = the resolver returns the nil value here. -/
-def afterPart : Nat → Val → Bool → Option (List Expr) → XM (Option (Val × Bool))
-  | 0, _, _, _ => xerr "fuel" .diverge
-  | fuel+1, v, safe, call => do
+def afterPart : Nat → Val → Bool → Option (List Expr) → Bool → XM (Option (Val × Bool))
+  | 0, _, _, _, _ => xerr "fuel" .diverge
+  | fuel+1, v, safe, call, direct => do
     if v.kind == .invalid then return none
-    let (v, safe) := match v with
-      | .boxed inner s => (inner, s)
-      | _ => (v, safe)
+    -- `current.Type() == typeOfValuePtr`: only a `*Value` whose static type is `*Value` (a context
+    -- entry, an element of a `[]*Value`) is unpacked; one held in an interface-typed element or
+    -- field stays a pointer to the `Value` struct
+    let (v, safe) := match v, direct with
+      | .boxed inner s, true => (inner, s)
+      | _, _ => (v, safe)
     if call.isSome || v.kind == .func then
       if v.kind != .func then xerr "is not a function"
       else
         let args ← evalList fuel (call.getD [])
-        let r ← callFunc fuel v args
-        if r.v.kind == .invalid then return none
-        return some (r.v, r.safe)
+        match v with
+        | .func id =>
+          let fr ← cur
+          match callGo id fr.autoescape args with
+          | .error m => xerr m
+          | .ok (rv, rs) =>
+            if rv.kind == .invalid then return none
+            return some (rv, rs.getD safe)
+        | _ =>
+          let r ← callFunc fuel v args
+          if r.v.kind == .invalid then return none
+          return some (r.v, r.safe)
     else if v.kind == .invalid then return none
     else return some (v, safe)
 
@@ -502,15 +716,31 @@ def resolveRest : Nat → List Part → Val → Bool → XM V
     let method : Option Val := match part, v with
       | .ident s _, .blockinfo fr name lvl => if s == b!"Super" then some (.blockinfo fr name (lvl + 1000000)) else none
       | _, _ => none
-    match method with
-    | some _ =>
+    let goMethod : Option (Bytes × Bool × GoSig) := match part with
+      | .ident s _ => (goMethodOf v s).map fun (viaNil, sig) => (s, viaNil, sig)
+      | _ => none
+    match method, goMethod with
+    | some _, _ =>
       -- `block.Super`: a bound method, called right away
       match v with
       | .blockinfo fid name lvl => do
         let r ← callSuper fuel fid name lvl
         if r.v.kind == .invalid then pure (mkV .nil) else resolveRest fuel rest r.v r.safe
       | _ => xerr "unreachable" .panic
-    | none =>
+    | none, some (mname, viaNil, sig) =>
+      -- a Go method: found before the pointer is followed, then called like any function
+      if viaNil then pure (mkV .nil)   -- value-receiver method through a nil pointer
+      else do
+        let call := match part with | .ident _ c => c | .idx _ c => c | .sub _ c => c
+        let args ← evalList fuel (call.getD [])
+        match goCheckCall sig args with
+        | .error m => xerr m
+        | .ok () =>
+          match goMethodRun mname (match v with | .ptr x => x | x => x) args with
+          | .error m => xerr m
+          | .ok (rv, rs) =>
+            if rv.kind == .invalid then pure (mkV .nil) else resolveRest fuel rest rv (rs.getD safe)
+    | none, none =>
       -- pointer dereference
       let deref : Option Val := match v with
         | .ptr x => some x
@@ -523,44 +753,21 @@ def resolveRest : Nat → List Part → Val → Bool → XM V
       | some cv => do
         let call := match part with | .ident _ c => c | .idx _ c => c | .sub _ c => c
         let next : Option Val ← (match part with
-          | .idx i _ =>
-            match cv with
-            | .str s => pure (if i ≥ 0 && s.length > i.toNatClampNeg then some (.uint (UInt64.ofNat (s.getD i.toNatClampNeg 0).toNat)) else none)
-            | .list _ xs | .arr _ xs => pure (if i ≥ 0 && xs.length > i.toNatClampNeg then some (xs.getD i.toNatClampNeg .nil) else none)
-            | .stringer (.str s) _ => pure (if i ≥ 0 && s.length > i.toNatClampNeg then some (.uint (UInt64.ofNat (s.getD i.toNatClampNeg 0).toNat)) else none)
-            | _ => xerr "can't access an index on this type"
-          | .ident s _ =>
-            match cv with
-            | .struct _ fields _ => pure (fields.lookup s)      -- unexported / missing field: nil
-            | .blockinfo .. => pure none
-            | .smap _ kvs => pure (kvs.lookup s)
-            | .imap .. => pure none
-            | .stringer (.struct _ fields _) _ => pure (fields.lookup s)
-            | _ => xerr "can't access a field by name on this type"
+          | .idx i _ => liftStep (stepIndex cv i)
+          | .ident s _ => liftStep (stepName cv s)
           | .sub e _ =>
-            match cv with
-            | .str s => do
+            -- the subscript expression is evaluated only for kinds that can be subscripted
+            if subscriptable cv then do
               let sv ← eval fuel e
-              let i := sv.v.toInt
-              pure (if i ≥ 0 && s.length > i.toNatClampNeg then some (.uint (UInt64.ofNat (s.getD i.toNatClampNeg 0).toNat)) else none)
-            | .list _ xs | .arr _ xs => do
-              let sv ← eval fuel e
-              let i := sv.v.toInt
-              pure (if i ≥ 0 && xs.length > i.toNatClampNeg then some (xs.getD i.toNatClampNeg .nil) else none)
-            | .struct _ fields _ => do
-              let sv ← eval fuel e
-              pure (fields.lookup sv.v.toS)
-            | .smap _ kvs => do
-              let sv ← eval fuel e
-              pure (match sv.v with | .str k => kvs.lookup k | _ => none)
-            | .imap _ kvs => do
-              let sv ← eval fuel e
-              pure (match sv.v with | .int k => kvs.lookup k | _ => none)
-            | _ => xerr "can't access an index on this type")
+              liftStep (stepSub cv sv.v)
+            else xerr "can't access an index on this type")
         match next with
         | none => pure (mkV .nil)
         | some nv => do
-          let r ← afterPart fuel nv safe call
+          let typedElems := match cv with
+            | .list ty _ | .arr ty _ => Bytes.hasSuffix ty valuePtrT
+            | _ => false
+          let r ← afterPart fuel nv safe call typedElems
           match r with
           | none => pure (mkV .nil)
           | some (v', safe') => resolveRest fuel rest v' safe'
